@@ -92,6 +92,17 @@ impl InnerLiterals {
         InnerLiterals { seq }
     }
 
+    /// Verification hook: the literals `one_regex` would build its
+    /// alternation from, or `None` when no fast line regex is built.
+    #[cfg(feature = "verif-hooks")]
+    pub(crate) fn verif_literals(&self) -> Option<Vec<Vec<u8>>> {
+        let lits = self.seq.literals()?;
+        if lits.is_empty() {
+            return None;
+        }
+        Some(lits.iter().map(|lit| lit.as_bytes().to_vec()).collect())
+    }
+
     /// Returns a infinite set of inner literals, such that it can never
     /// produce a matcher.
     pub(crate) fn none() -> InnerLiterals {
